@@ -1,4 +1,5 @@
 mod gen;
+mod io;
 mod json;
 mod model;
 mod scen;
@@ -237,10 +238,17 @@ fn cmd_replay(pos: &[String], kv: &HashMap<String, String>) -> i32 {
 }
 
 fn main() {
+    // engine processes provoke panics in the implementation on purpose (caught and classified);
+    // keep stderr quiet unless asked
+    if std::env::var("VERIF_VERBOSE").is_err() {
+        std::panic::set_hook(Box::new(|_| {}));
+    }
     let (pos, kv) = arg_map();
     let code = match pos.first().map(|s| s.as_str()) {
         Some("sys") => cmd_sys(&kv),
         Some("replay") => cmd_replay(&pos, &kv),
+        Some("io") => io::cmd_io(&kv),
+        Some("iochild") => io::child_main(&pos[1], &pos[2]),
         _ => {
             eprintln!("usage: nv sys --prop Cxx --tier quick|thorough --seed N --n K --out FILE | nv replay FILE [--prop Cxx]");
             2
